@@ -6,6 +6,7 @@ import (
 	"go/types"
 	"sort"
 	"strings"
+	"time"
 
 	"golang.org/x/tools/go/ssa"
 )
@@ -130,6 +131,7 @@ func (ex *Exec) VerifyFunc(ct *Contract) (res *FuncResult) {
 	}
 	tc.entry = st.Snapshot()
 	tc.entryVars = vars
+	tc.started = time.Now()
 	// vacuity: the preconditions must be satisfiable
 	tc.addObl(&Obligation{Name: ShortName(fn.String()) + "/cover:requires", Func: fn.String(), Kind: "cover", Cover: true,
 		Decls: append([]string(nil), st.decls...), PC: append([]T(nil), st.pc...), Goal: Bool(false), Src: "requires are satisfiable"})
